@@ -59,6 +59,22 @@ def Spec.step (cap : Nat) (xs : List Elem) : Op → List Elem × Out
   | .clear => ([], .unit)
   | .makeContiguous => (xs, .unit)
 
+def Op.given : Op → List Elem
+  | .pushBack x => [x] | .pushFront x => [x] | .tryPushBack x => [x] | .tryPushFront x => [x]
+  | _ => []
+
+def Out.handed : Out → List Elem
+  | .elem (some e) => [e]
+  | .res (.error x) => [x]
+  | _ => []
+
+/-- the elements an operation destroys -/
+def Spec.destroyed (xs : List Elem) : Op → List Elem
+  | .truncateBack n => xs.drop n
+  | .truncateFront n => xs.take (xs.length - n)
+  | .clear => xs
+  | _ => []
+
 /-- what the history theorems carry from step to step -/
 structure Good (cap : Nat) (s : Sys) : Prop where
   inv : Inv s.buf
@@ -67,54 +83,57 @@ structure Good (cap : Nat) (s : Sys) : Prop where
 
 theorem step_refines (cap : Nat) (s : Sys) (op : Op) (g : Good cap s) :
     ∃ s', runOp op s = (.ok (Spec.step cap (abs s.buf) op).2, s') ∧ Good cap s' ∧
-      abs s'.buf = (Spec.step cap (abs s.buf) op).1 := by
+      abs s'.buf = (Spec.step cap (abs s.buf) op).1 ∧
+      s'.log = dropEvents s.kind (Spec.destroyed (abs s.buf) op) ++ s.log ∧ s'.kind = s.kind := by
   obtain ⟨h, hc, hd⟩ := g
   have fromRefines : ∀ {α : Type} (m : M α) (r : α) (xs' : List Elem) (f : α → Out),
       Refines m s r xs' → ∃ s', (m >>= fun a => pure (f a)) s = (.ok (f r), s') ∧ Good cap s' ∧
-        abs s'.buf = xs' := by
+        abs s'.buf = xs' ∧ s'.log = dropEvents s.kind [] ++ s.log ∧ s'.kind = s.kind := by
     intro α m r xs' f ⟨b', e, i, a, c⟩
-    exact ⟨{ s with buf := b' }, by simp only [bind_run, e, pure_run], ⟨i, by rw [c, hc], hd⟩, a⟩
+    exact ⟨{ s with buf := b' }, by simp only [bind_run, e, pure_run], ⟨i, by rw [c, hc], hd⟩, a,
+      by simp [dropEvents_nil], rfl⟩
   have fromRefinesL : ∀ (m : M Unit) (xs' : List Elem) (evs : List Event),
       RefinesL m s () xs' evs → ∃ s', (m >>= fun _ => pure Out.unit) s = (.ok Out.unit, s') ∧
-        Good cap s' ∧ abs s'.buf = xs' := by
+        Good cap s' ∧ abs s'.buf = xs' ∧ s'.log = evs ++ s.log ∧ s'.kind = s.kind := by
     intro m xs' evs ⟨b', e, i, a, c⟩
     exact ⟨{ s with buf := b', log := evs ++ s.log }, by simp only [bind_run, e, pure_run],
-      ⟨i, by rw [c, hc], hd⟩, a⟩
+      ⟨i, by rw [c, hc], hd⟩, a, rfl, rfl⟩
   cases op with
-  | pushBack x => simpa [runOp, Spec.step, hc] using fromRefines _ _ _ Out.elem (pushBack_spec s x h)
-  | pushFront x => simpa [runOp, Spec.step, hc] using fromRefines _ _ _ Out.elem (pushFront_spec s x h)
-  | tryPushBack x => simpa [runOp, Spec.step, hc] using fromRefines _ _ _ Out.res (tryPushBack_spec s x h)
-  | tryPushFront x => simpa [runOp, Spec.step, hc] using fromRefines _ _ _ Out.res (tryPushFront_spec s x h)
-  | popBack => simpa [runOp, Spec.step] using fromRefines _ _ _ Out.elem (popBack_spec s h)
-  | popFront => simpa [runOp, Spec.step] using fromRefines _ _ _ Out.elem (popFront_spec s h)
-  | remove i => simpa [runOp, Spec.step] using fromRefines _ _ _ Out.elem (remove_spec s i h)
+  | pushBack x => simpa [runOp, Spec.step, Spec.destroyed, hc] using fromRefines _ _ _ Out.elem (pushBack_spec s x h)
+  | pushFront x => simpa [runOp, Spec.step, Spec.destroyed, hc] using fromRefines _ _ _ Out.elem (pushFront_spec s x h)
+  | tryPushBack x => simpa [runOp, Spec.step, Spec.destroyed, hc] using fromRefines _ _ _ Out.res (tryPushBack_spec s x h)
+  | tryPushFront x => simpa [runOp, Spec.step, Spec.destroyed, hc] using fromRefines _ _ _ Out.res (tryPushFront_spec s x h)
+  | popBack => simpa [runOp, Spec.step, Spec.destroyed] using fromRefines _ _ _ Out.elem (popBack_spec s h)
+  | popFront => simpa [runOp, Spec.step, Spec.destroyed] using fromRefines _ _ _ Out.elem (popFront_spec s h)
+  | remove i => simpa [runOp, Spec.step, Spec.destroyed] using fromRefines _ _ _ Out.elem (remove_spec s i h)
   | swapRemoveBack i =>
-    simpa [runOp, Spec.step] using fromRefines _ _ _ Out.elem (swapRemoveBack_spec s i h)
+    simpa [runOp, Spec.step, Spec.destroyed] using fromRefines _ _ _ Out.elem (swapRemoveBack_spec s i h)
   | swapRemoveFront i =>
-    simpa [runOp, Spec.step] using fromRefines _ _ _ Out.elem (swapRemoveFront_spec s i h)
+    simpa [runOp, Spec.step, Spec.destroyed] using fromRefines _ _ _ Out.elem (swapRemoveFront_spec s i h)
   | swap i j =>
     have hlen := abs_length s.buf h
     by_cases hi : i < s.buf.size
     · by_cases hj : j < s.buf.size
       · obtain ⟨b', e, i', a, c⟩ := swap_spec s i j h hi hj
-        refine ⟨{ s with buf := b' }, ?_, ⟨i', by rw [c, hc], hd⟩, ?_⟩
+        refine ⟨{ s with buf := b' }, ?_, ⟨i', by rw [c, hc], hd⟩, ?_, by simp [Spec.destroyed, dropEvents_nil], rfl⟩
         · simp only [runOp, bind_run, attempt, e, pure_run, Spec.step, hlen, hi, hj, if_true]
         · simp only [Spec.step, hlen, hi, hj, if_true]; exact a
-      · refine ⟨s, ?_, ⟨h, hc, hd⟩, by simp [Spec.step, hlen, hi, hj]⟩
+      · refine ⟨s, ?_, ⟨h, hc, hd⟩, by simp [Spec.step, hlen, hi, hj], by simp [Spec.destroyed, dropEvents_nil], rfl⟩
         simp only [runOp, bind_run, attempt, swap_panics_j s i j hi hj, pure_run, Spec.step, hlen, hi,
           hj, if_true, if_false]
-    · refine ⟨s, ?_, ⟨h, hc, hd⟩, by simp [Spec.step, hlen, hi]⟩
+    · refine ⟨s, ?_, ⟨h, hc, hd⟩, by simp [Spec.step, hlen, hi], by simp [Spec.destroyed, dropEvents_nil], rfl⟩
       simp only [runOp, bind_run, attempt, swap_panics_i s i j hi, pure_run, Spec.step, hlen, hi,
         if_false]
   | truncateBack n =>
-    simpa [runOp, Spec.step, Spec.truncateBack] using fromRefinesL _ _ _ (truncateBack_spec s n h hd)
+    simpa [runOp, Spec.step, Spec.destroyed, Spec.truncateBack] using fromRefinesL _ _ _ (truncateBack_spec s n h hd)
   | truncateFront n =>
-    simpa [runOp, Spec.step, Spec.truncateFront] using fromRefinesL _ _ _ (truncateFront_spec s n h hd)
-  | clear => simpa [runOp, Spec.step] using fromRefinesL _ _ _ (clear_spec s h hd)
+    simpa [runOp, Spec.step, Spec.destroyed, Spec.truncateFront] using fromRefinesL _ _ _ (truncateFront_spec s n h hd)
+  | clear => simpa [runOp, Spec.step, Spec.destroyed] using fromRefinesL _ _ _ (clear_spec s h hd)
   | makeContiguous =>
     obtain ⟨b', v, e, i, a, c, _⟩ := makeContiguous_spec s h
     exact ⟨{ s with buf := b' }, by simp only [runOp, bind_run, e, pure_run, Spec.step],
-      ⟨i, by rw [c, hc], hd⟩, by simp only [Spec.step]; exact a⟩
+      ⟨i, by rw [c, hc], hd⟩, by simp only [Spec.step]; exact a,
+      by simp [Spec.destroyed, dropEvents_nil], rfl⟩
 
 /-- run a whole history, collecting the outputs -/
 def runOps : List Op → Sys → List Out × Sys
@@ -139,11 +158,28 @@ theorem history_refines (cap : Nat) (ops : List Op) (s : Sys) (g : Good cap s) :
   induction ops generalizing s with
   | nil => exact ⟨rfl, rfl, g⟩
   | cons op rest ih =>
-    obtain ⟨s', e, g', a⟩ := step_refines cap s op g
+    obtain ⟨s', e, g', a, _, _⟩ := step_refines cap s op g
     obtain ⟨h1, h2, h3⟩ := ih s' g'
     simp only [runOps, e, Spec.runOps]
     rw [a] at h1 h2
     exact ⟨by rw [h1], h2, h3⟩
+
+/-- the ledger entries (newest first) a history produces: the destructions of each step -/
+def Spec.histDrops (k : Kind) (cap : Nat) : List Op → List Elem → List Event
+  | [], _ => []
+  | op :: rest, xs =>
+    Spec.histDrops k cap rest (Spec.step cap xs op).1 ++ dropEvents k (Spec.destroyed xs op)
+
+/-- along any history the model's ledger grows by exactly the destructions of the abstract steps -/
+theorem history_ledger (cap : Nat) (ops : List Op) (s : Sys) (g : Good cap s) :
+    (runOps ops s).2.log = Spec.histDrops s.kind cap ops (abs s.buf) ++ s.log := by
+  induction ops generalizing s with
+  | nil => simp [runOps, Spec.histDrops]
+  | cons op rest ih =>
+    obtain ⟨s', e, g', a, l, k⟩ := step_refines cap s op g
+    have := ih s' g'
+    simp only [runOps, e, Spec.histDrops]
+    rw [this, a, l, k, List.append_assoc]
 
 /-- in particular from `new()`, for every capacity below `2^64` -/
 theorem history_from_new (cap : Nat) (hc : cap < W) (ops : List Op) (k : Kind) :
